@@ -19,13 +19,20 @@ HTTP_CLASSES = [n for n in HTTP_CLASSES if isinstance(getattr(cerrors, n, None),
 VALUES = ['resp', 'resp', 'baseresp', 'str', 'none', 'number', 'dict', 'bytes', 'list']
 MSGS = {'plain': 'injected failure', 'nonascii': 'défaillance ☃ 中文', 'huge': 'x' * (1 << 20),
         'unprintable': 'ctl\x00\x01\x1b[31m\x7f\udcff', 'braces': '{0} {x} %s %(y)s </pre><script>', 'empty': ''}
-HANDLERS = ['default', 'default', 'debug', 'reraise', 're_raises', 're_other']
+HANDLERS = ['default', 'default', 'debug', 'reraise', 're_raises', 're_raises_http', 're_other']
 ACCEPTS = [None, 'text/html', 'application/json', 'application/xml', 'text/plain', '*/*', 'image/png', 'garbage;;q=x']
 
 
 class RaisingRenderErrorHandler(ErrorHandler):
     def render_error(self, request, _error):
         raise RuntimeError('render_error is broken')
+
+
+class RaisingHTTPRenderErrorHandler(ErrorHandler):
+    """render_error fails -- by raising an HTTPException of its own (e.g. its error page is missing)"""
+    def render_error(self, request, _error):
+        from clastic.errors import NotFound
+        raise NotFound('the custom error page is missing')
 
 
 class OtherErrorHandler(ErrorHandler):
@@ -42,6 +49,8 @@ def make_handler(kind):
         return ErrorHandler(reraise_uncaught=True), False
     if kind == 're_raises':
         return RaisingRenderErrorHandler(), False
+    if kind == 're_raises_http':
+        return RaisingHTTPRenderErrorHandler(), False
     if kind == 're_other':
         return OtherErrorHandler(), False
     raise ValueError(kind)
@@ -269,7 +278,7 @@ class C08(Check):
                 if not ex.iter_done:
                     res.violate(K + 'incomplete-response:body', ctx, step)
                     break
-                if cfg['handler'] == 're_raises' and ex.code >= 400 and fired:
+                if cfg['handler'] in ('re_raises', 're_raises_http') and ex.code >= 400 and fired:
                     res.probe('render-error-fallback')
                 if cfg['handler'] == 're_other' and ex.code == 502:
                     res.probe('handler-replaced-error')
